@@ -285,6 +285,8 @@ def digest(m: Any) -> Any:
         v = getattr(m, 'value', None) if hasattr(m, 'value') else m.raw_text
         if isinstance(m, InlineComment):
             v = (v or '').rstrip(' \t')
+        if isinstance(v, int) and not isinstance(v, bool):
+            v = decimal.Decimal(v)   # an int written as a number is that number
         if isinstance(v, decimal.Decimal) and v.is_finite() and v.as_tuple().exponent > 0:
             # a positive exponent has no spelling in plain notation: the same number written out is the same value (1E+2 and 100)
             v = decimal.Decimal(format(v, 'f'))
